@@ -86,6 +86,95 @@ Definition step_obs_eqb (a b : step_obs) : bool :=
 
 Record pcase := { p_pb : nat; p_bs : nat; p_ops : list op; p_impl : list step_obs }.
 
+(* ---- the property itself, evaluated on the implementation's trace --------
+   An executable set specification, independent of the model above: the stored
+   set [S] (None = not determined: after an operation that returned an error,
+   or after a crash that lost writes, until the next Get "" tells), what every
+   operation must return, and Size = |S| after every step.  The result is the
+   index and the kind of the first deviation. *)
+Definition has_id (i : N) (l : list mhk) : bool := existsb (fun k => N.eqb (mid k) i) l.
+Fixpoint dedup_ids (l : list mhk) (seen : list N) : list mhk :=
+  match l with
+  | [] => []
+  | k :: r => if mem_N (mid k) seen then dedup_ids r seen else k :: dedup_ids r (mid k :: seen)
+  end.
+Definition has_dup (l : list mhk) : bool := negb (Nat.eqb (length (dedup_ids l [])) (length l)).
+Definition set_add (s ks : list mhk) : list mhk :=
+  s ++ dedup_ids (filter (fun k => negb (has_id (mid k) s)) ks) [].
+Definition set_del (s ks : list mhk) : list mhk := filter (fun k => negb (has_id (mid k) ks)) s.
+Definition ids_sorted (l : list mhk) : list N := sort_N (map mid l).
+Definition lookup_ids (dict : list mhk) (ids : list N) : list mhk :=
+  dedup_ids (filter (fun k => mem_N (mid k) ids) dict) [].
+
+Record sst := { sp_set : option (list mhk); sp_dict : list mhk; sp_size_trust : bool; sp_code : nat }.
+
+Definition worse (a b : nat) : nat := if Nat.eqb a 2 then 2 else if Nat.eqb b 0 then a else if Nat.eqb a 0 then b else Nat.min a b.
+
+Definition spec_step (st : sst) (o : op) (ob : step_obs) : sst :=
+  let dict := match o with OPut ks _ | ODel ks _ => sp_dict st ++ ks | _ => sp_dict st end in
+  let dup := match o with OPut ks _ | ODel ks _ => has_dup ks | _ => false end in
+  (* (new set, deviation of the result) *)
+  let '(s', bad) :=
+    match o, so_res ob with
+    | OPut ks _, BErr => (None, false)
+    | OPut ks _, BKeys r =>
+        match sp_set st with
+        | Some s => (Some (set_add s ks),
+                     negb (list_eqb N.eqb r (ids_sorted (dedup_ids (filter (fun k => negb (has_id (mid k) s)) ks) []))))
+        | None => (None, false)
+        end
+    | ODel ks _, BErr => (None, false)
+    | ODel ks _, BNone => (match sp_set st with Some s => Some (set_del s ks) | None => None end, false)
+    | OEmpty _, BErr => (None, false)
+    | OEmpty _, BNone => (Some [], false)
+    | OGet p, BKeys r =>
+        match sp_set st with
+        | Some s => (Some s, negb (list_eqb N.eqb r (ids_sorted (filter (under p) s))))
+        | None => match p with
+                  | [] => (Some (lookup_ids dict r), negb (Nat.eqb (length (lookup_ids dict r)) (length r)))
+                  | _ => (None, false)
+                  end
+        end
+    | OCount p l, BNum n =>
+        match sp_set st with
+        | Some s => let m := Z.of_nat (length (filter (under p) s)) in
+                    (Some s, negb (Z.eqb n (if (0 <? l)%Z then Z.min l m else m)))
+        | None => (None, false)
+        end
+    | OContains p, BBool b =>
+        match sp_set st with
+        | Some s => (Some s, negb (Bool.eqb b (existsb (under p) s)))
+        | None => (None, false)
+        end
+    | ORestart, BNone => (sp_set st, false)
+    | OCrash back, BNone => (match back with O => sp_set st | _ => None end, false)
+    | _, _ => (sp_set st, true)   (* a result of the wrong shape *)
+    end in
+  (* a failed operation makes the keystore recount; a counter spoilt by a call
+     with a repeated key stays wrong until then (Close persists it) *)
+  let trust := match so_res ob with
+               | BErr => true
+               | _ => sp_size_trust st && negb dup
+               end in
+  let bad_size := match s' with
+                  | Some s => trust && negb (Z.eqb (so_size ob) (Z.of_nat (length s)))
+                  | None => false
+                  end in
+  let bad_now := bad || bad_size || (dup && match s' with
+                                           | Some s => negb (Z.eqb (so_size ob) (Z.of_nat (length s)))
+                                           | None => false end) in
+  let code := if bad_now then (if dup then 4 else 2) else 0 in
+  {| sp_set := s'; sp_dict := dict; sp_size_trust := trust; sp_code := worse (sp_code st) code |}.
+
+Fixpoint spec_run (st : sst) (ops : list op) (obs : list step_obs) : nat :=
+  match ops, obs with
+  | o :: ops', ob :: obs' => spec_run (spec_step st o ob) ops' obs'
+  | [], [] => sp_code st
+  | _, _ => 2
+  end.
+Definition spec_verdict (c : pcase) : nat :=
+  spec_run {| sp_set := Some []; sp_dict := []; sp_size_trust := true; sp_code := 0 |} (p_ops c) (p_impl c).
+
 (* ---- part 2: resettable keystore ---------------------------------------- *)
 Definition dk (pb : nat) (v i : N) : skey := dkey pb (mk v i).
 
@@ -134,11 +223,20 @@ Definition rverdict (c : rcase) : nat :=
 
 Inductive case := CaseP (c : pcase) | CaseR (c : rcase) | CaseSkip.
 
-(* 0 = agrees; 2 = the implementation's trace differs from the proved model on an
-   observable the property speaks about (every C20 observable is one). *)
+(* 0 = the trace meets the set specification and agrees with the model;
+   1 = it meets the specification but differs from the model (only possible on
+       operations with an injected failure, whose effect the property leaves open);
+   2 = the property fails on the trace (specification violated, or the trace
+       differs from the proved model where the specification says nothing);
+   4 = as 2, and the first deviation is at a Put/Delete whose argument repeats a
+       key (the known failure of the in-call dedup map). *)
 Definition verdict (c : case) : nat :=
   match c with
-  | CaseP c => if list_eqb step_obs_eqb (run (p_pb c) (p_bs c) ks_new (p_ops c)) (p_impl c) then 0 else 2
+  | CaseP c =>
+      match spec_verdict c with
+      | O => if list_eqb step_obs_eqb (run (p_pb c) (p_bs c) ks_new (p_ops c)) (p_impl c) then 0 else 1
+      | v => v
+      end
   | CaseR c => rverdict c
   | CaseSkip => 0
   end.
